@@ -80,7 +80,16 @@ fn elem_expref(src: &mut Src, arr: &J, want_key: bool) -> (String, crate::refast
         Some(J::Str(_)) => vec![("&@", R::Current), ("&length(@)", R::Call("length".into(), vec![R::Current])), ("&reverse(@)", R::Call("reverse".into(), vec![R::Current]))],
         _ => vec![("&@", R::Current), ("&type(@)", R::Call("type".into(), vec![R::Current]))],
     };
-    let _ = want_key;
+    // sometimes an arbitrary core expression as the reference: constants, multi-selects,
+    // comparisons, projections (for by-functions most of them have the wrong key type,
+    // which the model knows)
+    if src.chance(if want_key { 30 } else { 110 }) {
+        let o = crate::gen_expr::ExprOpts { max_depth: 2, extremes: false, step_zero: false, ..crate::gen_expr::ExprOpts::default() };
+        let e = crate::gen_expr::gen_expr(src, 0, first.as_ref(), &o);
+        if let Ok(t) = crate::print::minimal_text(&e) {
+            return (format!("&{}", t), e);
+        }
+    }
     let (t, e) = cands[src.below(cands.len())].clone();
     (t.to_string(), e)
 }
@@ -137,7 +146,7 @@ fn build_direct(src: &mut Src, sig: &'static Sig) -> (Direct, Vec<crate::refast:
         let t = pick_ty(src, alts);
         if t == RT::Expref {
             let arr = by_arr.as_ref().or(map_arr.as_ref()).unwrap();
-            let (txt, e) = elem_expref(src, arr, true);
+            let (txt, e) = elem_expref(src, arr, sig.name != "map");
             arg_texts.push(txt);
             arg_trees.push(R::Expref(Box::new(e)));
             args.push(J::Expref(None));
@@ -185,6 +194,16 @@ fn build_direct(src: &mut Src, sig: &'static Sig) -> (Direct, Vec<crate::refast:
                 ),
                 _ => gen_value_of(src, RT::Any),
             },
+            // a later argument is often the first one again or one step away from it
+            // (same keys / elements, one leaf changed)
+            _ if i > 0 && src.chance(50) && crate::refeval::ty_accepts(t, &args[0]) => {
+                if src.flip() {
+                    args[0].clone()
+                } else {
+                    let nv = crate::gen_doc::near_value(&args[0], src);
+                    if crate::refeval::ty_accepts(t, &nv) { nv } else { args[0].clone() }
+                }
+            }
             _ => gen_value_of(src, t),
         };
         if src.flip() {
@@ -290,6 +309,11 @@ fn direct(src: &mut Src, st: &mut Stats, _env: &Env) -> CaseResult {
         "type" if cx.ambiguous.contains(&"expref-for-any") => true,
         _ => g.deep_eq(&w),
     };
+    if !ok && cx.ambiguous.contains(&"to_string-format") {
+        // how a non-integer number is spelled inside a string is the formatter's choice
+        st.class("skip:ambiguous");
+        return Ok(());
+    }
     if !ok {
         return Err(Failure::new("direct", &sigkey, format!("gave {} expected {}", g.to_json(), w.to_json()), case));
     }
@@ -335,6 +359,153 @@ fn direct(src: &mut Src, st: &mut Stats, _env: &Env) -> CaseResult {
 
 /// A runtime with the built-ins plus a recording function `rec`: observes how
 /// often and on what an expression reference is evaluated.
+/// Structural identities, checked with the implementation's own results and
+/// compared exactly (integer / float spelling and every bit of a double):
+/// functions that move values around without computing on them hand back the
+/// very values they were given.  No reference values are involved, so the
+/// documents are free to contain numbers that are one unit in the last place
+/// apart, the same value in several spellings, and neighbouring large integers.
+fn structural(src: &mut Src, st: &mut Stats, _env: &Env) -> CaseResult {
+    use crate::gen_doc::{gen_json, near_value_opt, DocOpts};
+    // a cluster of values that are pairwise "almost" the same
+    let o = DocOpts { max_depth: 2, max_width: 3, wild_numbers: true, ..DocOpts::default() };
+    let seed_val = match src.below(6) {
+        0 => J::f([0.3, 0.1 + 0.2, 1e22, 1.0, 100.0, 1.0 / 3.0, 2.5e15, 5e-324, 4.35][src.below(9)]),
+        1 => J::Num(N::Int([1i128 << 53, (1 << 53) + 1, i64::MAX as i128, u64::MAX as i128 - 1, 0, 1, -1][src.below(7)])),
+        2 => J::Str(crate::gen_doc::gen_string(src)),
+        _ => gen_json(src, 1, &o),
+    };
+    let mut cluster = vec![seed_val.clone()];
+    for _ in 0..src.below(6) {
+        let base = cluster[src.below(cluster.len())].clone();
+        cluster.push(near_value_opt(&base, src, true));
+    }
+    let pick = |src: &mut Src| cluster[src.below(cluster.len())].clone();
+    // a: object, b: object with (mostly) the same keys and clustered values; xs: array; objs: keyed rows
+    let keys = ["k", "n", "s", "ab", "foo"];
+    let nk = 1 + src.below(keys.len());
+    let mut a = BTreeMap::new();
+    let mut b2 = BTreeMap::new();
+    for k in keys.iter().take(nk) {
+        a.insert(k.to_string(), pick(src));
+        b2.insert(k.to_string(), pick(src));
+    }
+    if src.chance(60) {
+        b2.insert("extra".to_string(), pick(src));
+    }
+    let n = if src.chance(60) { 21 + src.below(80) } else { src.below(9) };
+    let xs: Vec<J> = (0..n).map(|_| if src.chance(20) { J::Null } else { pick(src) }).collect();
+    let key_num = src.flip();
+    let objs: Vec<J> = (0..n)
+        .map(|i| {
+            let mut m = BTreeMap::new();
+            m.insert("i".to_string(), J::int(i as i64));
+            m.insert("k".to_string(), if key_num { J::int(src.range(0, 2)) } else { J::Str(src.pick(&["a", "b", ""]).to_string()) });
+            m.insert("v".to_string(), pick(src));
+            J::Obj(m)
+        })
+        .collect();
+    let homogeneous: Option<Vec<J>> = {
+        // a sortable array: only numbers or only strings from the cluster
+        let nums: Vec<J> = xs.iter().filter(|x| matches!(x, J::Num(_))).cloned().collect();
+        let strs: Vec<J> = xs.iter().filter(|x| matches!(x, J::Str(_))).cloned().collect();
+        if !nums.is_empty() && src.flip() {
+            Some(nums)
+        } else if !strs.is_empty() {
+            Some(strs)
+        } else {
+            None
+        }
+    };
+    let mut doc = BTreeMap::new();
+    doc.insert("a".to_string(), J::Obj(a));
+    doc.insert("b".to_string(), J::Obj(b2.clone()));
+    doc.insert("xs".to_string(), J::Arr(xs.clone()));
+    doc.insert("objs".to_string(), J::Arr(objs));
+    doc.insert("z".to_string(), J::Null);
+    if let Some(h) = &homogeneous {
+        doc.insert("hs".to_string(), J::Arr(h.clone()));
+    }
+    let dt = J::Obj(doc).to_json();
+    // (expression, expression whose result must be identical) or multiset relations
+    let same: Vec<(String, String)> = vec![
+        ("merge(a, b)".into(), if b2.len() >= nk { "b".into() } else { "merge(a, b)".into() }),
+        ("merge(a, b, b)".into(), "merge(a, b)".into()),
+        ("merge(b)".into(), "b".into()),
+        ("merge(b, `{}`)".into(), "b".into()),
+        ("merge(`{}`, a)".into(), "a".into()),
+        ("reverse(reverse(xs))".into(), "xs".into()),
+        ("values(b)[?type(@) != 'null']".into(), "b.*".into()),
+        ("map(&@, xs)".into(), "xs".into()),
+        ("map(&[@][0], xs)".into(), "xs".into()),
+        ("not_null(z, a)".into(), "a".into()),
+        ("not_null(xs)".into(), "xs".into()),
+        ("to_array(xs)".into(), "xs".into()),
+        ("to_array(a)[0]".into(), "a".into()),
+        ("[a, b][1]".into(), "b".into()),
+        ("{p: xs, q: a}.p".into(), "xs".into()),
+        ("xs[*]".into(), "xs[?type(@) != 'null']".into()),
+        ("xs[::-1]".into(), "reverse(xs)[*]".into()),
+        ("objs[*].v".into(), "map(&v, objs)[?type(@) != 'null']".into()),
+        ("sort_by(objs, &i)".into(), "objs".into()),
+        ("sort_by(objs, &k)[?i == `0`] | [0]".into(), "objs[0]".into()),
+        ("reverse(sort_by(reverse(objs), &i))".into(), "reverse(objs)".into()),
+        ("max_by(objs, &i)".into(), "objs[-1]".into()),
+        ("min_by(objs, &i)".into(), "objs[0]".into()),
+        ("(xs || z)".into(), if xs.is_empty() { "z".into() } else { "xs".into() }),
+        ("[xs, a] | [0]".into(), "xs".into()),
+        ("xs[0:]".into(), "xs[*]".into()),
+        ("[xs[]][0]".into(), "xs[]".into()),
+    ];
+    let (e1, e2) = same[src.below(same.len())].clone();
+    st.eval();
+    let run = |e: &str| search_text(e, &dt);
+    let case = json!({"expression": e1, "same_as": e2, "document": dt});
+    match (run(&e1), run(&e2)) {
+        (ImpOut::Ok(x), ImpOut::Ok(y)) => {
+            if !x.exact_eq(&y) {
+                return Err(Failure::new("structural", "structural-identity-broken", format!("{} gave {} but {} gave {}", e1, clip(&x.to_json(), 300), e2, clip(&y.to_json(), 300)), case));
+            }
+        }
+        (ImpOut::Panic(p), _) | (_, ImpOut::Panic(p)) => return Err(Failure::new("structural", "panic", p, case)),
+        (ImpOut::SearchErr(_), ImpOut::SearchErr(_)) => {}
+        (x, y) => return Err(Failure::new("structural", "structural-identity-broken", format!("{} gave {} but {} gave {}", e1, x.brief(), e2, y.brief()), case)),
+    }
+    // sorting / extremes of a homogeneous array: a permutation of the input, element by element exact
+    // (the input elements as the implementation itself reads them: its JSON parser is only
+    // accurate to 2 ulp on long numerals, which is outside this property)
+    let homogeneous: Option<Vec<J>> = match (&homogeneous, run("hs")) {
+        (Some(_), ImpOut::Ok(J::Arr(h))) => Some(h),
+        _ => None,
+    };
+    if let Some(h) = &homogeneous {
+        for (e, want_len) in [("sort(hs)", h.len()), ("sort_by(hs, &@)", h.len()), ("[max(hs)]", 1), ("[min(hs)]", 1), ("reverse(sort(hs))", h.len())] {
+            match run(e) {
+                ImpOut::Ok(J::Arr(got)) => {
+                    let mut used = vec![false; h.len()];
+                    let mut ok = got.len() == want_len;
+                    for g in &got {
+                        match h.iter().enumerate().position(|(i, x)| !used[i] && x.exact_eq(g)) {
+                            Some(i) => used[i] = true,
+                            None => ok = false,
+                        }
+                    }
+                    if !ok {
+                        return Err(Failure::new("structural", "result-not-made-of-input-elements", format!("{} gave {} from {}", e, clip(&J::Arr(got.clone()).to_json(), 300), clip(&J::Arr(h.clone()).to_json(), 300)), json!({"expression": e, "document": dt})));
+                    }
+                }
+                ImpOut::Panic(p) => return Err(Failure::new("structural", "panic", p, json!({"expression": e, "document": dt}))),
+                other => return Err(Failure::new("structural", "result-not-made-of-input-elements", format!("{} gave {}", e, other.brief()), json!({"expression": e, "document": dt}))),
+            }
+        }
+    }
+    st.class(&format!("identity:{}", e1.split('(').next().unwrap_or("")));
+    if cluster.len() >= 3 && st.nontrivial(&format!("{}\u{0}{}", e1, dt)) {
+        st.sample(|| json!({"expression": e1, "same_as": e2, "cluster": cluster.iter().map(|c| c.to_json()).collect::<Vec<_>>()}));
+    }
+    Ok(())
+}
+
 fn counting(src: &mut Src, st: &mut Stats, _env: &Env) -> CaseResult {
     let log: Arc<Mutex<Vec<String>>> = Arc::new(Mutex::new(vec![]));
     let log2 = log.clone();
@@ -598,6 +769,7 @@ pub fn property() -> Property {
         subs: vec![
             Sub::Custom(CustomSub { name: "cross", run: cross, replay: replay_cross }),
             Sub::Bytes(BytesSub { name: "direct", f: direct, max_len: 700, quick: Budget { threads: 8, cases: 24000 }, thorough: Budget { threads: 16, cases: 300_000 }, keep_unreproducible: false }),
+            Sub::Bytes(BytesSub { name: "structural", f: structural, max_len: 1500, quick: Budget { threads: 8, cases: 8000 }, thorough: Budget { threads: 16, cases: 200_000 }, keep_unreproducible: false }),
             Sub::Bytes(BytesSub { name: "nested", f: nested, max_len: 2500, quick: Budget { threads: 8, cases: 12000 }, thorough: Budget { threads: 16, cases: 120_000 }, keep_unreproducible: false }),
             Sub::Bytes(BytesSub { name: "mixed", f: mixed, max_len: 1500, quick: Budget { threads: 8, cases: 12000 }, thorough: Budget { threads: 16, cases: 120_000 }, keep_unreproducible: false }),
             Sub::Bytes(BytesSub { name: "call-towers", f: call_towers, max_len: 2500, quick: Budget { threads: 4, cases: 4000 }, thorough: Budget { threads: 16, cases: 40_000 }, keep_unreproducible: false }),
